@@ -33,8 +33,14 @@ def bisect(sig_of, lo, hi, slo, shi, max_iter=2200):
     return lo, hi
 
 
-def walk(prog, make_args, ts, dom=sxvm.FLOAT):
+def walk(prog, make_args, ts, dom=sxvm.FLOAT, pieces=False):
+    """pieces=True: the pieces of floor / ceil / sign / fabs / fmod are part of the signature (a quantiser or a dead band written without a
+    comparison is a boundary all the same)"""
     def sig_of(t):
+        if pieces:
+            st = []
+            s_ = sxvm.run(prog, make_args(t), dom, steps=st)[1]
+            return s_, tuple(st)
         return sxvm.run(prog, make_args(t), dom)[1]
     ts = sorted(ts)
     out = []
@@ -115,6 +121,28 @@ def margin_walk(prog, make_args, ts, per_cell=32, dom=sxvm.FLOAT):
                                 a_, b_ = (outside, found) if outside < found else (found, outside)
                                 sa_ = sig_of(a_)
                                 out.append(bisect(sig_of, a_, b_, sa_, sig_of(b_)))
+    return out
+
+
+def ray_members(prog, make_args, ts, per_cell=12, pieces=True, dom=sxvm.FLOAT, cap=400):
+    """parameter values on both sides of every outcome change of the compiled program along the ray t -> make_args(t), t in the sorted
+    grid ts: signature flips between neighbours (walk, incl. the pieces of floor / sign / ...), and windows that open and close between
+    neighbours (margin_walk).  Returns a sorted list of distinct t."""
+    out = set()
+    try:
+        for a, b in walk(prog, make_args, ts, dom, pieces=pieces):
+            out.add(a)
+            out.add(b)
+            # one more member well inside the cell behind the boundary (a window wider than an ulp but narrower than the grid)
+        for a, b in margin_walk(prog, make_args, ts, per_cell=per_cell, dom=dom):
+            out.add(a)
+            out.add(b)
+    except (ZeroDivisionError, OverflowError, ValueError):
+        pass
+    out = sorted(out)
+    if len(out) > cap:
+        step = len(out) / cap
+        out = [out[int(k * step)] for k in range(cap)]
     return out
 
 
